@@ -112,8 +112,8 @@ CLAIMS = {
             "subscript carries a no-exception obligation (found D4 and D8, both fixed). Counterexamples are replayed on the real code. "
             "Bounded supplement, reported separately and not counted as proved: the body of normalize_path (idempotence, display form "
             "vs plain form, equality with the normal form) and the equivalence form of split-then-join are checked exhaustively for "
-            "every string of <= 5 (thorough: 6) characters over a 9-character alphabet plus token sequences with doubled separators, "
-            "per path convention (contracts/bounded_paths.py).",
+            "every string of <= 5 characters over a 9-character alphabet plus sequences of up to 6 (thorough: 7) tokens with doubled "
+            "separators, for 4 (thorough: all 12) path conventions (contracts/bounded_paths.py).",
             "String builtins follow specifications (strip/find/replace/lower as functions with axioms) conformance-tested against CPython each run; normalize_path's own body (re.split + join over a list of unknown length) is not proved, only bounded."),
     "C14": ("proof", "Lemma-level proof. Events without an id are ignored (except a folder deletion matched by path); a walk event that "
             "changes nothing is ignored; pre_sync always re-reads both sides before an entry is acted on; re-reading records the "
